@@ -212,5 +212,59 @@ Proof.
   intros H. inversion H. exists x, y, r, n1, n2. auto.
 Qed.
 
+Lemma take_n_some {X} n : forall (l a b : list X), take_n n l = Some (a, b) -> l = a ++ b /\ length a = n.
+Proof.
+  induction n as [|n IH]; intros l a b H; cbn in H.
+  - inversion H. auto.
+  - destruct l as [|x r]; [discriminate|]. destruct (take_n n r) as [[a' b']|] eqn:E; [|discriminate].
+    inversion H; subst. destruct (IH _ _ _ E) as [-> <-]. auto.
+Qed.
+
+Lemma csa_ok e s a st' : exec_op e OP_CHECKSIGADD (mkSt s a) = Ok st' ->
+  exists k nb sg r n (b : bool), s = k :: nb :: sg :: r /\ num_operand 4 nb = Some n /\
+    st' = mkSt (num_encode (n + (if b then 1 else 0))%Z :: r) a /\ (b = true -> e_sigok e k sg = true).
+Proof.
+  cbn [exec_op stk alt]. destruct (e_sv e); try discriminate.
+  destruct s as [|k [|nb [|sg r]]]; try discriminate.
+  destruct (negb (e_keyok e k)); [discriminate|].
+  destruct (num_operand 4 nb) as [n|] eqn:En; [|discriminate].
+  destruct sg as [|b0 sg'].
+  - intros H. inversion H. exists k, nb, [], r, n, false. rewrite Z.add_0_r. repeat split; auto; discriminate.
+  - destruct (e_sigok e k (b0 :: sg')) eqn:E; [|discriminate].
+    intros H. inversion H. exists k, nb, (b0 :: sg'), r, n, true. repeat split; auto.
+Qed.
+
+Lemma cms_ok e s a st' : exec_op e OP_CHECKMULTISIG (mkSt s a) = Ok st' ->
+  exists nb r1 n keys_rev mb r3 m sigs_rev r5 b,
+    s = nb :: r1 /\ num_operand 4 nb = Some n /\ take_n (Z.to_nat n) r1 = Some (keys_rev, mb :: r3) /\
+    num_operand 4 mb = Some m /\ take_n (Z.to_nat m) r3 = Some (sigs_rev, [] :: r5) /\
+    st' = mkSt (bool_bytes b :: r5) a /\ (b = true -> multisig_match e keys_rev sigs_rev = true).
+Proof.
+  cbn [exec_op stk alt]. intros H.
+  destruct (e_sv e); try discriminate H;
+  (destruct s as [|nb r1]; [discriminate|];
+   destruct (num_operand 4 nb) as [n|] eqn:En; [|discriminate];
+   destruct ((n <? 0) || (20 <? n))%Z; [discriminate|];
+   destruct (take_n (Z.to_nat n) r1) as [[keys_rev r2]|] eqn:Ek; [|discriminate];
+   destruct r2 as [|mb r3]; [discriminate|];
+   destruct (num_operand 4 mb) as [m|] eqn:Em; [|discriminate];
+   destruct ((m <? 0) || (n <? m))%Z; [discriminate|];
+   destruct (take_n (Z.to_nat m) r3) as [[sigs_rev r4]|] eqn:Es; [|discriminate];
+   destruct r4 as [|dummy r5]; [discriminate|]; destruct dummy; [|discriminate];
+   destruct (negb (forallb (e_keyok e) keys_rev)); [discriminate|];
+   destruct (multisig_match e keys_rev sigs_rev) eqn:Emm;
+   [ inversion H; exists nb, r1, n, keys_rev, mb, r3, m, sigs_rev, r5, true; repeat split; auto
+   | match type of H with (if ?c then _ else _) = _ => destruct c end; [|discriminate];
+     inversion H; exists nb, r1, n, keys_rev, mb, r3, m, sigs_rev, r5, false; repeat split; auto; discriminate ]).
+Qed.
+
+Lemma mm_first e keys sg srest : multisig_match e keys (sg :: srest) = true -> exists k, e_sigok e k sg = true.
+Proof.
+  induction keys as [|kbs K IH]; [discriminate|].
+  cbn [multisig_match]. destruct (Nat.ltb _ _); [discriminate|].
+  destruct (e_sigok e kbs sg) eqn:E; [eauto|].
+  intros H. apply IH. destruct K; [discriminate H | exact H].
+Qed.
+
 Lemma blen_zero x : Z.of_N (blen x) = 0%Z -> x = [].
 Proof. destruct x; [reflexivity|]. unfold blen. cbn [length]. lia. Qed.
